@@ -106,6 +106,13 @@ static int line_to_instr(struct instr *instr_data, char *filtered_asm_str) {
       INSTR_TABLE[instr_data->key + 1].encode_operand == S &&
       INSTR_TABLE[instr_data->key + 1].name == INSTR_TABLE[instr_data->key].name)
     instr_data->key++;
+  // a rel8 encoding cannot hold a displacement outside of -128..127
+  if (instr_data->imm && TYPE(instr_data->key, CONTROL_FLOW) &&
+      INSTR_TABLE[instr_data->key].encode_operand == S)
+    FAIL_IF_MSG(!(instr_data->cons <= MAX_SIGNED_8BIT ||
+                  instr_data->cons >= NEG80BIT ||
+                  IN_RANGE(instr_data->cons, NEG80_32BIT, MAX_UNSIGNED_32BIT)),
+                "jump displacement does not fit in 8 bits\n");
   // values will be determined during encoding
   instr_data->hex.reg = NONE;
   instr_data->hex.rex = NONE;
